@@ -123,7 +123,9 @@ def get_next_linebox(context, linebox, position_y, bottom_space, skip_stack,
         line.margin_top = 0
         line.margin_bottom = 0
 
-        line.translate(offset_x, offset_y)
+        # Floats have already been placed horizontally, move the text only
+        line.translate(offset_x, 0, ignore_floats=True)
+        line.translate(0, offset_y)
         # Avoid floating point errors, as position_y - top + top != position_y
         # Removing this line breaks the position == linebox.position test below
         # See https://github.com/Kozea/WeasyPrint/issues/583
